@@ -49,9 +49,21 @@ type sys struct {
 	cleared []*traits.ElectricMode // what each successful clear-active returned
 }
 
+// resourceClocks: the resources inside the model are given a clock of their own (an hour ahead) AFTER the model's
+// clock was set: their change times are theirs, the start time of a newly selected mode is the MODEL clock's.
+var resourceClocks bool
+
+type aheadClock struct{ *fakeClock }
+
+func (c aheadClock) Now() time.Time { return c.fakeClock.Now().Add(time.Hour) }
+
 func newSys() *sys {
 	clk := &fakeClock{now: base}
-	m := electricpb.NewModel(electricpb.WithClock(clk), electricpb.WithRNG(rand.New(rand.NewSource(7))))
+	opts := []resource.Option{electricpb.WithClock(clk), electricpb.WithRNG(rand.New(rand.NewSource(7)))}
+	if resourceClocks {
+		opts = append(opts, electricpb.WithActiveModeOption(resource.WithClock(aheadClock{clk})), electricpb.WithModeOption(resource.WithClock(aheadClock{clk})))
+	}
+	m := electricpb.NewModel(opts...)
 	return &sys{m: m, s: electricpb.NewModelServer(m), clk: clk}
 }
 
@@ -570,6 +582,18 @@ func main() {
 		}
 		bfs(s, true, d)
 	})
+	for _, server := range []bool{false, true} {
+		server := server
+		h.Seq(fmt.Sprintf("bfs(server=%v)/the model's resources have clocks of their own", server), func(s *hx.Seq) {
+			resourceClocks = true
+			defer func() { resourceClocks = false }()
+			d := 2
+			if s.Thorough {
+				d = 3
+			}
+			bfs(s, server, d)
+		})
+	}
 	// the same searches from the state "the normal mode was demoted while it is the active one"
 	h.Seq("model-bfs/from(normal mode demoted while active)", func(s *hx.Seq) {
 		d := 2
